@@ -1,29 +1,23 @@
-/-
-GENERATED by a one-off script from a DEX file written by harness/dexasm.py (class `LFoo;`
-implementing `Ljava/lang/Runnable;`, source file, a static and an instance field, a constructor
-and two virtual methods with code; 636 bytes).  The tables and the layout were read off the bytes;
-every claim below is checked by the kernel.  Non-vacuity witness for `parse_encode` (Props/C05.lean).
--/
 import AgVerif.Proof.DexLoadView
 namespace AgVerif.C05.Example
 open AgVerif.DexFile AgVerif.LoadOrder AgVerif.Spec.Leb
 open AgVerif.Spec.DexFile (ushort uint ULeb protoId fieldId methodId classDef typeListBody codeHdr EncFields EncMethods EncClassData)
 
-def file : Bytes := [100, 101, 120, 10, 48, 51, 53, 0, 68, 59, 230, 100, 174, 174, 211, 176, 254, 3, 32, 191, 0, 228, 80, 122, 34, 145, 175, 128, 17, 132, 32, 56, 124, 2, 0, 0, 112, 0, 0, 0, 120, 86, 52, 18, 0, 0, 0, 0, 0, 0, 0, 0, 232, 1, 0, 0, 13, 0, 0, 0, 112, 0, 0, 0, 6, 0, 0, 0, 164, 0, 0, 0, 2, 0, 0, 0, 188, 0, 0, 0, 2, 0, 0, 0, 212, 0, 0, 0, 4, 0, 0, 0, 228, 0, 0, 0, 1, 0, 0, 0, 4, 1, 0, 0, 88, 1, 0, 0, 36, 1, 0, 0, 50, 1, 0, 0, 58, 1, 0, 0, 68, 1, 0, 0, 71, 1, 0, 0, 76, 1, 0, 0, 79, 1, 0, 0, 86, 1, 0, 0, 106, 1, 0, 0, 128, 1, 0, 0, 131, 1, 0, 0, 134, 1, 0, 0, 137, 1, 0, 0, 142, 1, 0, 0, 2, 0, 0, 0, 4, 0, 0, 0, 5, 0, 0, 0, 6, 0, 0, 0, 7, 0, 0, 0, 8, 0, 0, 0, 3, 0, 0, 0, 0, 0, 0, 0, 36, 1, 0, 0, 8, 0, 0, 0, 5, 0, 0, 0, 0, 0, 0, 0, 2, 0, 0, 0, 9, 0, 0, 0, 2, 0, 1, 0, 12, 0, 0, 0, 2, 0, 1, 0, 0, 0, 0, 0, 2, 0, 0, 0, 10, 0, 0, 0, 2, 0, 1, 0, 11, 0, 0, 0, 3, 0, 1, 0, 0, 0, 0, 0, 2, 0, 0, 0, 1, 0, 0, 0, 3, 0, 0, 0, 44, 1, 0, 0, 1, 0, 0, 0, 0, 0, 0, 0, 210, 1, 0, 0, 0, 0, 0, 0, 2, 0, 0, 0, 0, 0, 1, 0, 1, 0, 0, 0, 4, 0, 6, 60, 105, 110, 105, 116, 62, 0, 8, 70, 111, 111, 46, 106, 97, 118, 97, 0, 1, 73, 0, 3, 73, 73, 74, 0, 1, 74, 0, 5, 76, 70, 111, 111, 59, 0, 18, 76, 106, 97, 118, 97, 47, 108, 97, 110, 103, 47, 79, 98, 106, 101, 99, 116, 59, 0, 20, 76, 106, 97, 118, 97, 47, 108, 97, 110, 103, 47, 82, 117, 110, 110, 97, 98, 108, 101, 59, 0, 1, 86, 0, 1, 88, 0, 1, 102, 0, 3, 114, 117, 110, 0, 1, 121, 0, 0, 0, 0, 1, 0, 1, 0, 1, 0, 0, 0, 0, 0, 0, 0, 4, 0, 0, 0, 112, 16, 3, 0, 0, 0, 14, 0, 5, 0, 4, 0, 0, 0, 0, 0, 0, 0, 0, 0, 2, 0, 0, 0, 18, 16, 15, 0, 1, 0, 1, 0, 0, 0, 0, 0, 0, 0, 0, 0, 1, 0, 0, 0, 14, 0, 1, 1, 1, 2, 0, 9, 1, 2, 0, 129, 128, 4, 148, 3, 1, 1, 172, 3, 1, 1, 192, 3, 12, 0, 0, 0, 0, 0, 0, 0, 1, 0, 0, 0, 0, 0, 0, 0, 1, 0, 0, 0, 13, 0, 0, 0, 112, 0, 0, 0, 2, 0, 0, 0, 6, 0, 0, 0, 164, 0, 0, 0, 3, 0, 0, 0, 2, 0, 0, 0, 188, 0, 0, 0, 4, 0, 0, 0, 2, 0, 0, 0, 212, 0, 0, 0, 5, 0, 0, 0, 4, 0, 0, 0, 228, 0, 0, 0, 6, 0, 0, 0, 1, 0, 0, 0, 4, 1, 0, 0, 1, 16, 0, 0, 2, 0, 0, 0, 36, 1, 0, 0, 2, 32, 0, 0, 13, 0, 0, 0, 50, 1, 0, 0, 1, 32, 0, 0, 3, 0, 0, 0, 148, 1, 0, 0, 0, 32, 0, 0, 1, 0, 0, 0, 210, 1, 0, 0, 0, 16, 0, 0, 1, 0, 0, 0, 232, 1, 0, 0]
+def file : Bytes := [100, 101, 120, 10, 48, 51, 53, 0, 37, 68, 52, 135, 17, 213, 223, 93, 105, 166, 125, 39, 239, 198, 130, 50, 154, 43, 50, 188, 110, 82, 118, 16, 180, 2, 0, 0, 112, 0, 0, 0, 120, 86, 52, 18, 0, 0, 0, 0, 0, 0, 0, 0, 32, 2, 0, 0, 14, 0, 0, 0, 112, 0, 0, 0, 7, 0, 0, 0, 168, 0, 0, 0, 2, 0, 0, 0, 196, 0, 0, 0, 2, 0, 0, 0, 220, 0, 0, 0, 4, 0, 0, 0, 236, 0, 0, 0, 1, 0, 0, 0, 12, 1, 0, 0, 136, 1, 0, 0, 44, 1, 0, 0, 58, 1, 0, 0, 66, 1, 0, 0, 76, 1, 0, 0, 79, 1, 0, 0, 84, 1, 0, 0, 87, 1, 0, 0, 94, 1, 0, 0, 117, 1, 0, 0, 137, 1, 0, 0, 159, 1, 0, 0, 162, 1, 0, 0, 165, 1, 0, 0, 168, 1, 0, 0, 173, 1, 0, 0, 2, 0, 0, 0, 4, 0, 0, 0, 5, 0, 0, 0, 6, 0, 0, 0, 7, 0, 0, 0, 8, 0, 0, 0, 9, 0, 0, 0, 3, 0, 0, 0, 0, 0, 0, 0, 44, 1, 0, 0, 9, 0, 0, 0, 6, 0, 0, 0, 0, 0, 0, 0, 2, 0, 0, 0, 10, 0, 0, 0, 2, 0, 1, 0, 13, 0, 0, 0, 2, 0, 1, 0, 0, 0, 0, 0, 2, 0, 0, 0, 11, 0, 0, 0, 2, 0, 1, 0, 12, 0, 0, 0, 4, 0, 1, 0, 0, 0, 0, 0, 2, 0, 0, 0, 1, 0, 0, 0, 4, 0, 0, 0, 52, 1, 0, 0, 1, 0, 0, 0, 0, 0, 0, 0, 10, 2, 0, 0, 0, 0, 0, 0, 2, 0, 0, 0, 0, 0, 1, 0, 1, 0, 0, 0, 5, 0, 6, 60, 105, 110, 105, 116, 62, 0, 8, 70, 111, 111, 46, 106, 97, 118, 97, 0, 1, 73, 0, 3, 73, 73, 74, 0, 1, 74, 0, 5, 76, 70, 111, 111, 59, 0, 21, 76, 106, 97, 118, 97, 47, 108, 97, 110, 103, 47, 69, 120, 99, 101, 112, 116, 105, 111, 110, 59, 0, 18, 76, 106, 97, 118, 97, 47, 108, 97, 110, 103, 47, 79, 98, 106, 101, 99, 116, 59, 0, 20, 76, 106, 97, 118, 97, 47, 108, 97, 110, 103, 47, 82, 117, 110, 110, 97, 98, 108, 101, 59, 0, 1, 86, 0, 1, 88, 0, 1, 102, 0, 3, 114, 117, 110, 0, 1, 121, 0, 1, 0, 1, 0, 1, 0, 0, 0, 0, 0, 0, 0, 4, 0, 0, 0, 112, 16, 3, 0, 0, 0, 14, 0, 5, 0, 4, 0, 0, 0, 1, 0, 0, 0, 0, 0, 7, 0, 0, 0, 18, 16, 15, 0, 13, 1, 18, 32, 15, 0, 18, 48, 15, 0, 0, 0, 0, 0, 0, 0, 1, 0, 1, 0, 1, 127, 3, 2, 5, 0, 0, 0, 1, 0, 1, 0, 0, 0, 0, 0, 0, 0, 0, 0, 1, 0, 0, 0, 14, 0, 1, 1, 1, 2, 0, 9, 1, 2, 0, 129, 128, 4, 176, 3, 1, 1, 200, 3, 1, 1, 248, 3, 12, 0, 0, 0, 0, 0, 0, 0, 1, 0, 0, 0, 0, 0, 0, 0, 1, 0, 0, 0, 14, 0, 0, 0, 112, 0, 0, 0, 2, 0, 0, 0, 7, 0, 0, 0, 168, 0, 0, 0, 3, 0, 0, 0, 2, 0, 0, 0, 196, 0, 0, 0, 4, 0, 0, 0, 2, 0, 0, 0, 220, 0, 0, 0, 5, 0, 0, 0, 4, 0, 0, 0, 236, 0, 0, 0, 6, 0, 0, 0, 1, 0, 0, 0, 12, 1, 0, 0, 1, 16, 0, 0, 2, 0, 0, 0, 44, 1, 0, 0, 2, 32, 0, 0, 14, 0, 0, 0, 58, 1, 0, 0, 1, 32, 0, 0, 3, 0, 0, 0, 176, 1, 0, 0, 0, 32, 0, 0, 1, 0, 0, 0, 10, 2, 0, 0, 0, 16, 0, 0, 1, 0, 0, 0, 32, 2, 0, 0]
 
-def L : Layout := ⟨488, [⟨0x0, 1, 0⟩, ⟨0x1, 13, 112⟩, ⟨0x2, 6, 164⟩, ⟨0x3, 2, 188⟩, ⟨0x4, 2, 212⟩, ⟨0x5, 4, 228⟩, ⟨0x6, 1, 260⟩, ⟨0x1001, 2, 292⟩, ⟨0x2002, 13, 306⟩, ⟨0x2001, 3, 404⟩, ⟨0x2000, 1, 466⟩, ⟨0x1000, 1, 488⟩]⟩
+def L : Layout := ⟨544, [⟨0x0, 1, 0⟩, ⟨0x1, 14, 112⟩, ⟨0x2, 7, 168⟩, ⟨0x3, 2, 196⟩, ⟨0x4, 2, 220⟩, ⟨0x5, 4, 236⟩, ⟨0x6, 1, 268⟩, ⟨0x1001, 2, 300⟩, ⟨0x2002, 14, 314⟩, ⟨0x2001, 3, 432⟩, ⟨0x2000, 1, 522⟩, ⟨0x1000, 1, 544⟩]⟩
 
 def T : Tables :=
-  { strings := [([6], [60, 105, 110, 105, 116, 62]), ([8], [70, 111, 111, 46, 106, 97, 118, 97]), ([1], [73]), ([3], [73, 73, 74]), ([1], [74]), ([5], [76, 70, 111, 111, 59]), ([18], [76, 106, 97, 118, 97, 47, 108, 97, 110, 103, 47, 79, 98, 106, 101, 99, 116, 59]), ([20], [76, 106, 97, 118, 97, 47, 108, 97, 110, 103, 47, 82, 117, 110, 110, 97, 98, 108, 101, 59]), ([1], [86]), ([1], [88]), ([1], [102]), ([3], [114, 117, 110]), ([1], [121])]
-    stringIds := [306, 314, 324, 327, 332, 335, 342, 362, 384, 387, 390, 393, 398]
-    typeIds := [2, 4, 5, 6, 7, 8]
-    protoIds := [⟨3, 0, 292⟩, ⟨8, 5, 0⟩]
-    fieldIds := [⟨2, 0, 9⟩, ⟨2, 1, 12⟩]
-    methodIds := [⟨2, 1, 0⟩, ⟨2, 0, 10⟩, ⟨2, 1, 11⟩, ⟨3, 1, 0⟩]
-    typeLists := [([0, 1], []), ([4], [6, 60])]
-    classData := [(⟨[⟨0, 9⟩], [⟨1, 2⟩], [⟨0, 65537, 404⟩], [⟨1, 1, 428⟩, ⟨2, 1, 448⟩]⟩, [1, 1, 1, 2, 0, 9, 1, 2, 0, 129, 128, 4, 148, 3, 1, 1, 172, 3, 1, 1, 192, 3])]
-    codes := [(⟨⟨1, 1, 1, 0, 0, 4⟩, [112, 16, 3, 0, 0, 0, 14, 0]⟩, []), (⟨⟨5, 4, 0, 0, 0, 2⟩, [18, 16, 15, 0]⟩, []), (⟨⟨1, 1, 0, 0, 0, 1⟩, [14, 0]⟩, [1, 1])]
-    classDefs := [⟨2, 1, 3, 300, 1, 0, 466, 0⟩] }
+  { strings := [([6], [60, 105, 110, 105, 116, 62]), ([8], [70, 111, 111, 46, 106, 97, 118, 97]), ([1], [73]), ([3], [73, 73, 74]), ([1], [74]), ([5], [76, 70, 111, 111, 59]), ([21], [76, 106, 97, 118, 97, 47, 108, 97, 110, 103, 47, 69, 120, 99, 101, 112, 116, 105, 111, 110, 59]), ([18], [76, 106, 97, 118, 97, 47, 108, 97, 110, 103, 47, 79, 98, 106, 101, 99, 116, 59]), ([20], [76, 106, 97, 118, 97, 47, 108, 97, 110, 103, 47, 82, 117, 110, 110, 97, 98, 108, 101, 59]), ([1], [86]), ([1], [88]), ([1], [102]), ([3], [114, 117, 110]), ([1], [121])]
+    stringIds := [314, 322, 332, 335, 340, 343, 350, 373, 393, 415, 418, 421, 424, 429]
+    typeIds := [2, 4, 5, 6, 7, 8, 9]
+    protoIds := [⟨3, 0, 300⟩, ⟨9, 6, 0⟩]
+    fieldIds := [⟨2, 0, 10⟩, ⟨2, 1, 13⟩]
+    methodIds := [⟨2, 1, 0⟩, ⟨2, 0, 11⟩, ⟨2, 1, 12⟩, ⟨4, 1, 0⟩]
+    typeLists := [([0, 1], []), ([5], [6, 60])]
+    classData := [(⟨[⟨0, 9⟩], [⟨1, 2⟩], [⟨0, 65537, 432⟩], [⟨1, 1, 456⟩, ⟨2, 1, 504⟩]⟩, [1, 1, 1, 2, 0, 9, 1, 2, 0, 129, 128, 4, 176, 3, 1, 1, 200, 3, 1, 1, 248, 3])]
+    codes := [(⟨⟨1, 1, 1, 0, 0, 4⟩, [112, 16, 3, 0, 0, 0, 14, 0]⟩, []), (⟨⟨5, 4, 0, 1, 0, 7⟩, [18, 16, 15, 0, 13, 1, 18, 32, 15, 0, 18, 48, 15, 0]⟩, [0, 0, 0, 0, 0, 0, 1, 0, 1, 0, 1, 127, 3, 2, 5, 0, 0, 0]), (⟨⟨1, 1, 0, 0, 0, 1⟩, [14, 0]⟩, [1, 1])]
+    classDefs := [⟨2, 1, 4, 308, 1, 0, 522, 0⟩] }
 
 theorem at_intro (file : Bytes) (off : Nat) (bs : Bytes)
     (h : (file.drop off).take bs.length = bs) (hlen : off ≤ file.length) : At file off bs := by
@@ -55,14 +49,30 @@ theorem cdEnc : ∀ c ∈ T.classData,
   intro c hc
   simp only [T, List.mem_singleton] at hc
   subst hc
-  exact ⟨[1], [1], [1], [2], [0, 9], [1, 2], [0, 129, 128, 4, 148, 3], [1, 1, 172, 3, 1, 1, 192, 3],
+  exact ⟨[1], [1], [1], [2], [0, 9], [1, 2], [0, 129, 128, 4, 176, 3], [1, 1, 200, 3, 1, 1, 248, 3],
     ⟨by decide, by decide, by decide⟩, ⟨by decide, by decide, by decide⟩, ⟨by decide, by decide, by decide⟩,
     ⟨by decide, by decide, by decide⟩,
     (.cons 0 0 9 [0] [9] _ _ (by decide) ⟨by decide, by decide, by decide⟩ ⟨by decide, by decide, by decide⟩ (.nil 0)),
     (.cons 0 1 2 [1] [2] _ _ (by decide) ⟨by decide, by decide, by decide⟩ ⟨by decide, by decide, by decide⟩ (.nil 1)),
-    (.cons 0 0 65537 404 [0] [129, 128, 4] [148, 3] _ _ (by decide) ⟨by decide, by decide, by decide⟩ ⟨by decide, by decide, by decide⟩ ⟨by decide, by decide, by decide⟩ (.nil 0)),
-    (.cons 0 1 1 428 [1] [1] [172, 3] _ _ (by decide) ⟨by decide, by decide, by decide⟩ ⟨by decide, by decide, by decide⟩ ⟨by decide, by decide, by decide⟩ (.cons 1 2 1 448 [1] [1] [192, 3] _ _ (by decide) ⟨by decide, by decide, by decide⟩ ⟨by decide, by decide, by decide⟩ ⟨by decide, by decide, by decide⟩ (.nil 2))),
+    (.cons 0 0 65537 432 [0] [129, 128, 4] [176, 3] _ _ (by decide) ⟨by decide, by decide, by decide⟩ ⟨by decide, by decide, by decide⟩ ⟨by decide, by decide, by decide⟩ (.nil 0)),
+    (.cons 0 1 1 456 [1] [1] [200, 3] _ _ (by decide) ⟨by decide, by decide, by decide⟩ ⟨by decide, by decide, by decide⟩ ⟨by decide, by decide, by decide⟩ (.cons 1 2 1 504 [1] [1] [248, 3] _ _ (by decide) ⟨by decide, by decide, by decide⟩ ⟨by decide, by decide, by decide⟩ ⟨by decide, by decide, by decide⟩ (.nil 2))),
     by decide⟩
+
+instance (h : AgVerif.Spec.Tries.EncHandler) : Decidable h.WF := by
+  obtain ⟨size, pairs, ca⟩ := h
+  unfold AgVerif.Spec.Tries.EncHandler.WF
+  cases ca <;> exact inferInstance
+
+theorem codeRest : ∀ p ∈ T.codes, ∃ tail pad, p.2 = tail ++ pad ∧ CodeTail p.1 tail ∧
+    pad.length = (4 - (encCode p.1 ++ tail).length % 4) % 4 := by
+  intro p hp
+  simp only [T, List.mem_cons, List.not_mem_nil, or_false] at hp
+  rcases hp with rfl | rfl | rfl
+  · exact ⟨[], [], by decide, by unfold CodeTail; rw [if_pos (by decide)], by decide⟩
+  · refine ⟨[0, 0, 0, 0, 0, 0, 1, 0, 1, 0, 1, 127, 3, 2, 5], [0, 0, 0], by decide, ?_, by decide⟩
+    unfold CodeTail; rw [if_neg (by decide)]
+    exact ⟨[0, 0], (⟨⟨1, [1]⟩, [⟨⟨-1, [127]⟩, [⟨⟨3, [3]⟩, ⟨2, [2]⟩⟩], some ⟨5, [5]⟩⟩], [⟨0, 1, 0, 1⟩]⟩ : AgVerif.Spec.Tries.Plan), by decide, by decide, by decide, by decide, by decide, by decide⟩
+  · exact ⟨[], [1, 1], by decide, by unfold CodeTail; rw [if_pos (by decide)], by decide⟩
 
 theorem encodes : Encodes file L T where
   mapOff_ne := by decide
@@ -76,17 +86,17 @@ theorem encodes : Encodes file L T where
   strItem := strItem_dec _ (by decide +kernel)
   tlPad := by decide +kernel
   cdEnc := cdEnc
-  codePad := by decide +kernel
-  strings := section_intro ⟨0x2002, 13, 306⟩ (by decide +kernel) (by decide +kernel) (by decide +kernel) (by decide +kernel) (by decide +kernel)
-  stringIds := section_intro ⟨0x1, 13, 112⟩ (by decide +kernel) (by decide +kernel) (by decide +kernel) (by decide +kernel) (by decide +kernel)
-  typeIds := section_intro ⟨0x2, 6, 164⟩ (by decide +kernel) (by decide +kernel) (by decide +kernel) (by decide +kernel) (by decide +kernel)
-  protoIds := section_intro ⟨0x3, 2, 188⟩ (by decide +kernel) (by decide +kernel) (by decide +kernel) (by decide +kernel) (by decide +kernel)
-  fieldIds := section_intro ⟨0x4, 2, 212⟩ (by decide +kernel) (by decide +kernel) (by decide +kernel) (by decide +kernel) (by decide +kernel)
-  methodIds := section_intro ⟨0x5, 4, 228⟩ (by decide +kernel) (by decide +kernel) (by decide +kernel) (by decide +kernel) (by decide +kernel)
-  typeLists := section_intro ⟨0x1001, 2, 292⟩ (by decide +kernel) (by decide +kernel) (by decide +kernel) (by decide +kernel) (by decide +kernel)
-  classData := section_intro ⟨0x2000, 1, 466⟩ (by decide +kernel) (by decide +kernel) (by decide +kernel) (by decide +kernel) (by decide +kernel)
-  codes := section_intro ⟨0x2001, 3, 404⟩ (by decide +kernel) (by decide +kernel) (by decide +kernel) (by decide +kernel) (by decide +kernel)
-  classDefs := section_intro ⟨0x6, 1, 260⟩ (by decide +kernel) (by decide +kernel) (by decide +kernel) (by decide +kernel) (by decide +kernel)
+  codeRest := codeRest
+  strings := section_intro ⟨0x2002, 14, 314⟩ (by decide +kernel) (by decide +kernel) (by decide +kernel) (by decide +kernel) (by decide +kernel)
+  stringIds := section_intro ⟨0x1, 14, 112⟩ (by decide +kernel) (by decide +kernel) (by decide +kernel) (by decide +kernel) (by decide +kernel)
+  typeIds := section_intro ⟨0x2, 7, 168⟩ (by decide +kernel) (by decide +kernel) (by decide +kernel) (by decide +kernel) (by decide +kernel)
+  protoIds := section_intro ⟨0x3, 2, 196⟩ (by decide +kernel) (by decide +kernel) (by decide +kernel) (by decide +kernel) (by decide +kernel)
+  fieldIds := section_intro ⟨0x4, 2, 220⟩ (by decide +kernel) (by decide +kernel) (by decide +kernel) (by decide +kernel) (by decide +kernel)
+  methodIds := section_intro ⟨0x5, 4, 236⟩ (by decide +kernel) (by decide +kernel) (by decide +kernel) (by decide +kernel) (by decide +kernel)
+  typeLists := section_intro ⟨0x1001, 2, 300⟩ (by decide +kernel) (by decide +kernel) (by decide +kernel) (by decide +kernel) (by decide +kernel)
+  classData := section_intro ⟨0x2000, 1, 522⟩ (by decide +kernel) (by decide +kernel) (by decide +kernel) (by decide +kernel) (by decide +kernel)
+  codes := section_intro ⟨0x2001, 3, 432⟩ (by decide +kernel) (by decide +kernel) (by decide +kernel) (by decide +kernel) (by decide +kernel)
+  classDefs := section_intro ⟨0x6, 1, 268⟩ (by decide +kernel) (by decide +kernel) (by decide +kernel) (by decide +kernel) (by decide +kernel)
 
 theorem wf : WF T L := by decide +kernel
 
